@@ -1,6 +1,7 @@
 # property id -> (module under checks/, function)
 REGISTRY = {
     "C37": ("fn", "c37"),
+    "C01": ("fn", "c01"), "C02": ("fn", "c02"), "C10": ("fn", "c10"), "C11": ("fn", "c11"), "C15": ("fn", "c15"), "C12": ("fn", "c12"), "C13": ("fn", "c13"), "C14": ("fn", "c14"),
     "C20": ("relay", "run"), "C21": ("relay", "run"), "C22": ("relay", "run"), "C24": ("relay", "run"), "C25": ("relay", "run"),
 }
 
@@ -28,3 +29,17 @@ for _p, _t in {
     "C25": "OneActiveSession / OneActiveListen at quiescence, replaced calls end with the replaced error (and only those), NoLeftovers: relay snapshot is empty once all calls ended.",
 }.items():
     META[_p] = dict(technique=_RELAY_TECH, text=_t, note=_RELAY_NOTE)
+
+_FN_TECH = "TLA+ functional spec checked by TLC over the whole case universe (one state per case); TLC-emitted case table with the spec's verdict replayed on the real package"
+_FN_NOTE = "Cryptographic primitives are idealised in the spec (free constructors); the executor concretises atoms with seeded real keys and byte-level mutations, so byte-level universality is sampled per abstract class, not proved."
+for _p, _t in {
+    "C01": "SymSigned.tla (Dolev-Yao): the transcribed ExtractAndVerify accepts exactly the authentic tuples; all 43 200 message cases (every single- and multi-field tampering of signer / context / hash type / body / claimed sender / signature bytes / embedded key) are replayed through SignedMsg.ExtractAndVerify, pubmessage.ExtractAndVerify and SessionMsg.ExtractAndVerify after a wire round trip; err==nil iff spec accepts, returned id = claimed.",
+    "C02": "SymSigned.tla detached-signature part: VerifyWithPublic true exactly on the diagonal (key, ctx, hash type, data), Validate rejects out-of-range hash type / empty signature / unparsable embedded key; 17 280 cases.",
+    "C10": "SymCodec.tla: ID injectivity / matches-iff-derived over key pairs, multihash grammar (code, varint truncation/overflow, length mismatch, digest classes, non-base58 text): accept/extract verdicts compared for IDB58Decode, IDFromBytes, ParsePeerID, ExtractPublicKey.",
+    "C11": "SymCodec.tla key part: every encoding (protobuf, PEM, base58) x key kind x malformation class (64/96-byte forms with matching and mismatching redundant key, short data, wrong key type, wrong PEM type, non-text, truncated proto, empty) against crypto / keypem / confparse parsers: round trip to an equal key and peer ID, malformed => error.",
+    "C12": "SymEnc.tla: decrypt = original iff same key, same context, unmodified ciphertext; every ciphertext region mutated, every boundary truncation (0,1,33..36,51,len-1), extension; messages empty / 1 B / text / 4 KiB-1 MiB.",
+    "C13": "SymDerive.tla: all ordered pairs of (key, context incl. empty and a repeated-pattern context, salt incl. nil/empty) x output lengths {0,1,16,32,64,1000}: determinism, separation, totality (no panic), DeriveEd25519Key separation.",
+    "C14": "LowOrder.tla: the XOR-OR fold transcribed from IsEdLowOrder is checked by TLC against the declarative blacklist membership on 4 359 inputs covering every (entry, position, equality class / bit flip) transition and all prefix/suffix hybrids; each replayed with both sign bits on IsEdLowOrder and PublicKeyToCurve25519 and compared with [8]P=identity from edwards25519; X25519 shared-secret symmetry on seeded key pairs.",
+    "C15": "SymCodec.tla hash part: VerifyData ok iff known type, digest of that data, exact length; Validate; lossless binary/base58/JSON encodings; CompareHash.",
+}.items():
+    META[_p] = dict(technique=_FN_TECH, text=_t, note=_FN_NOTE)
